@@ -31,6 +31,19 @@ impl Client {
     /// Fetch and decrypt all chunks in the data map.
     pub(crate) async fn fetch_from_data_map(&self, data_map: &DataMap) -> Result<Bytes, GetError> {
         debug!("Fetching encrypted data chunks from data map {data_map:?}");
+        // A data map comes from the network or from the user: self-encryption never produces fewer than three
+        // chunks and numbers them 0..n, and `decrypt_full_set` indexes by these numbers without checking them.
+        let infos = data_map.infos();
+        let chunk_count = infos.len();
+        if chunk_count < 3 || infos.iter().any(|info| info.index >= chunk_count) {
+            error!("Malformed data map: {chunk_count} chunks, or a chunk index out of range");
+            return Err(GetError::Decryption(
+                crate::self_encryption::Error::SelfEncryption(self_encryption::Error::Generic(
+                    "malformed data map: fewer than three chunks or a chunk index out of range"
+                        .to_string(),
+                )),
+            ));
+        }
         let mut download_tasks = vec![];
         for info in data_map.infos() {
             download_tasks.push(async move {
